@@ -1,4 +1,5 @@
 import Heathcliff.Proofs.C10H
+import Heathcliff.Proofs.C10I
 
 /- Property theorems only (statements verbatim; proofs are the helper lemmas of Heathcliff/Proofs). -/
 namespace HC.C10
@@ -29,6 +30,52 @@ theorem fastConvert_spec {ib ob : RNSBase} {c : BaseConverter} (hi : ib.WF) (ho 
     {x : Nat} (hxl : x < ib.prod) (hxr : ∀ i, i < ib.size → x % (ib.q i).value = xs.getD i 0 % (ib.q i).value) :
     ∃ out alpha, c.fastConvert xs = .ok out ∧ out.size = ob.size ∧ alpha < ib.size ∧
       ∀ j, j < ob.size → out.getD j 0 = (x + alpha * ib.prod) % (ob.q j).value := HC.fastConvert_spec hi ho hc hs hx hxl hxr
+
+
+/-- ROUNDING DIVISION: the result is the nearest integer to x / q_L (ties up), reduced mod q_i -/
+theorem divRoundLast_scalar {qL qi inv x : Nat} (hqL : 2 ≤ qL) (hqi : 2 ≤ qi) (hinv : (inv * qL) % qi = 1) :
+    divRoundLastCoeff qL qi inv (x % qL) (x % qi) = ((x + qL / 2) / qL) % qi := HC.divRoundLast_scalar hqL hqi hinv
+
+/-- BGV DIVISION: with y = (x - x_L)/q_L - neg (an integer, |y - x/q_L| ≤ t + 1) the routine returns y mod q_i,
+    and y·q_L ≡ x (mod t): the value modulo t is preserved up to the known factor q_L^{-1} -/
+theorem modTDivLast_scalar {t qL qi inv invt x : Nat} (ht : 2 ≤ t) (hqL : 2 ≤ qL) (hqi : 2 ≤ qi)
+    (hinv : (inv * qL) % qi = 1) (hinvt : (invt * qL) % t = 1) (hit : invt < t) :
+    let xL := x % qL
+    let neg := (((t - xL % t) % t) * invt) % t
+    let y : Int := ((x - xL) / qL : Nat) - (neg : Int)
+    (modTDivLastCoeff t qL qi inv invt xL (x % qi) : Int) = y % (qi : Int) ∧
+    (y * qL - x) % (t : Int) = 0 ∧ neg < t := HC.modTDivLast_scalar ht hqL hqi hinv hinvt hit
+
+/-- LIFT to the model (coefficient form): every output component i < size-1, every coefficient j -/
+theorem divideAndRoundQLast_spec {r : RNSTool} {p : RnsPoly}
+    (hq : ∀ i, i < r.baseQ.size → (r.baseQ.q i).WF) (hs : 2 ≤ r.baseQ.size)
+    (hinv : ∀ i, i < r.baseQ.size - 1 → WFOp (r.baseQ.q i) (r.invQLastModQ.getD i default) ∧
+        ((r.invQLastModQ.getD i default).operand * (r.baseQ.q (r.baseQ.size - 1)).value) % (r.baseQ.q i).value = 1)
+    (hp : p.size = r.baseQ.size) (hn : ∀ i, i < r.baseQ.size → (p.getD i #[]).size = r.n)
+    (hc : ∀ i j, i < r.baseQ.size → j < r.n → (p.getD i #[]).getD j 0 < (r.baseQ.q i).value) :
+    ∃ out, r.divideAndRoundQLast p = .ok out ∧ ∀ i j, i < r.baseQ.size - 1 → j < r.n →
+      (out.getD i #[]).getD j 0 =
+        divRoundLastCoeff (r.baseQ.q (r.baseQ.size - 1)).value (r.baseQ.q i).value (r.invQLastModQ.getD i default).operand
+          ((p.getD (r.baseQ.size - 1) #[]).getD j 0) ((p.getD i #[]).getD j 0) := HC.divideAndRoundQLast_spec hq hs hinv hp hn hc
+
+
+/-! ### BEHZ steps: integer lemmas for the per-coefficient formulas the model computes (`…Coeff` in Proofs/C10I.lean,
+    tied to the array-level model by the `…_spec` lifting theorems below; statements as formulated and proved there). -/
+
+/-- Montgomery reduction mod q (m̃ = 2^32): m̃ ∣ Y + q·rm, result = ((Y + q·rm)/m̃) mod b_i, rm ∈ [-m̃/2, m̃/2), size bound -/
+theorem smMrq_scalar : type_of% @HC.smMrq_scalar := @HC.smMrq_scalar
+/-- fast floor: (Y − (x + αQ))/Q = ⌊Y/Q⌋ − α (mod b_i) -/
+theorem fastFloor_scalar : type_of% @HC.fastFloor_scalar := @HC.fastFloor_scalar
+/-- Shenoy–Kumaresan: exact for 2|V| + 2kB ≤ B·m_sk -/
+theorem fastbconvSk_scalar_bound : type_of% @HC.fastbconvSk_scalar_bound := @HC.fastbconvSk_scalar_bound
+/-- γ-corrected scale-and-round: returns round(t·x̃/Q) mod t whenever 2γ|e| + 2kQ ≤ Qγ (|e/Q| ≤ 1/2 − k/γ) -/
+theorem scaleAndRound_scalar_bound : type_of% @HC.scaleAndRound_scalar_bound := @HC.scaleAndRound_scalar_bound
+/-- liftings: the array-level model routines compute exactly these per-coefficient formulas -/
+theorem smMrq_spec : type_of% @HC.smMrq_spec := @HC.smMrq_spec
+theorem fastFloor_spec : type_of% @HC.fastFloor_spec := @HC.fastFloor_spec
+theorem fastbconvSk_spec : type_of% @HC.fastbconvSk_spec := @HC.fastbconvSk_spec
+theorem decryptScaleAndRound_spec : type_of% @HC.decryptScaleAndRound_spec := @HC.decryptScaleAndRound_spec
+theorem modTAndDivideQLast_spec : type_of% @HC.modTAndDivideQLast_spec := @HC.modTAndDivideQLast_spec
 
 /-- decomposition below the base product (for a single-modulus base the code does not reduce at all, so the statement for
     arbitrary v < 2^(64·size) is false: refuted as `decomposeSpecStatement_false` in Proofs/C10H.lean) -/
